@@ -1,4 +1,6 @@
 import OmplModel.Model.RRT
+import OmplModel.Model.RRTHistory
+import OmplModel.Model.GoalStates
 import OmplModel.Model.RRTConnect
 import OmplModel.Driver.Common
 /-!
@@ -11,7 +13,7 @@ Line-protocol driver for the RRT model at `Float` over R^n with axis-aligned box
     res <frac>                         setStateValidityCheckingResolution
     range <r>                          setRange (before setup; < epsilon means "auto": 0.2 * extent)
     interm <0|1>                       setIntermediateStates
-    goal <state>   thr <t>             GoalState + threshold
+    goal <state>   thr <t>             GoalState + threshold; further `goal` lines make it a GoalStates (Model/GoalStates.lean)
     start <state>                      addStartState (repeatable)
     draw <g|u> <state>                 what ended up in rstate in one loop iteration (recorded by the harness)
     solve                              -> status line
@@ -19,6 +21,13 @@ Line-protocol driver for the RRT model at `Float` over R^n with axis-aligned box
     ptc <n>                            RRTConnect: the termination condition answers false n times, then true
     solvec                             RRTConnect::solve on the `u` draws (goal samples come from the goal itself)
     trees / treeg                      RRTConnect: start tree / goal tree (parent:state:root)
+
+histories of one RRT object (Model/RRTHistory.lean; lock-step twin of the harness's mode `history`):
+    hinit                              fresh planner after setup() (range configured), problem definition = the starts so far
+    hsolve                             Op.solve on the draws given since the last hsolve -> status line
+    hclear | haddstart <state> | hrange <r> | hthr <t> | hinterm <0|1> | hsetup | hclearsol      the other Ops -> ok
+    htree / hpath / hpdef              tree, path registered by the last hsolve, problem definition (count, flag,
+                                       difference of the top solution, flag:difference of every solution in insertion order)
 
 Everything numeric is computed here with the operations and operation order of the C++ code
 (RealVectorStateSpace::distance / interpolate / getMaximumExtent / satisfiesBounds,
@@ -47,6 +56,7 @@ structure Env where
   range : Float := 0.0
   interm : Bool := false
   goal : State := #[]
+  moreGoals : Array State := #[]
   thr : Float := eps
   starts : Array State := #[]
   draws : Array (Draw State) := #[]
@@ -54,6 +64,8 @@ structure Env where
   ptc : Nat := 0
   reportC : Option (OmplModel.RRTConnect.Report State Float) := none
   added : Option (List State × Bool × Float) := none
+  world : Option (World State Float) := none
+  hrep : Option (Report State Float) := none
 
 /-- `RealVectorStateSpace::distance` -/
 def rvDist (a b : State) : Float := Id.run do
@@ -101,6 +113,14 @@ def checkMotion (e : Env) (a b : State) : Bool :=
 def effRange (e : Env) : Float :=
   if e.range < eps then extent e * 0.2 else e.range
 
+/-- all goal states in the order given -/
+def allGoals (e : Env) : Array State := #[e.goal] ++ e.moreGoals
+
+/-- `GoalState::distanceGoal` for one goal state, `GoalStates::distanceGoal` for several -/
+def goalDist (e : Env) (s : State) : Float :=
+  if e.moreGoals.isEmpty then rvDist s e.goal
+  else OmplModel.GoalStates.distanceGoal rvDist (fun a b => a < b) inf (allGoals e) s
+
 def cfgOf (e : Env) : Cfg State Float where
   dist := rvDist
   interp := rvInterp
@@ -114,7 +134,7 @@ def cfgOf (e : Env) : Cfg State Float where
   valid := isValid e
   checkMotion := checkMotion e
   segCount := segCount e
-  goalDist s := rvDist s e.goal
+  goalDist := goalDist e
   threshold := e.thr
   addIntermediate := e.interm
 
@@ -136,9 +156,9 @@ def cfgC (e : Env) : OmplModel.RRTConnect.Cfg State Float where
   checkMotion := checkMotion e
   segCount := segCount e
   equalStates := rvEqual
-  goalDist s := rvDist s e.goal
-  goalSample _ := e.goal
-  maxGoalSamples := 1
+  goalDist := goalDist e
+  goalSample := OmplModel.GoalStates.kth (allGoals e) e.goal
+  maxGoalSamples := (allGoals e).size
   pairValid _ _ := true
   addIntermediate := e.interm
   connectFuel := 1000000
@@ -190,7 +210,10 @@ def step (e : Env) (ts : List String) : Env × String :=
   | ["interm", "1"] => ({ e with interm := true }, "ok")
   | "goal" :: rest =>
     match floats? rest with
-    | some s => if s.size = e.dim then ({ e with goal := s }, "ok") else (e, "bad-op")
+    | some s =>
+      if s.size = e.dim then
+        (if e.goal.size = 0 then { e with goal := s } else { e with moreGoals := e.moreGoals.push s }, "ok")
+      else (e, "bad-op")
     | none => (e, "bad-op")
   | "start" :: rest =>
     match floats? rest with
@@ -258,6 +281,65 @@ def step (e : Env) (ts : List String) : Env × String :=
       (e, s!"pdef count={getSolutionCount pd'} approx={if hasApproximateSolution lt better pd' then 1 else 0} " ++
         s!"diff={floatBits (getSolutionDifference lt better (-1.0) pd')}")
     else (e, "bad-op")
+  | ["hinit"] =>
+    if e.lo.size = e.dim ∧ e.hi.size = e.dim ∧ e.goal.size = e.dim then
+      ({ e with world := some (World.fresh e.starts ⟨effRange e, e.thr, e.interm⟩), draws := #[], hrep := none }, "ok")
+    else (e, "bad-op")
+  | "haddstart" :: rest =>
+    match e.world, floats? rest with
+    | some w, some s =>
+      if s.size = e.dim then ({ e with world := some (applyOp (cfgOf e) eps (extent e * 0.2) w (.addStart s)).1 }, "ok")
+      else (e, "bad-op")
+    | _, _ => (e, "bad-op")
+  | [h, x] =>
+    match e.world with
+    | none => (e, "bad-op")
+    | some w =>
+      let op? : Option (Op State Float) :=
+        if h = "hrange" then (parseFloatBits? x).map .setRange
+        else if h = "hthr" then (parseFloatBits? x).map .setThreshold
+        else if h = "hinterm" ∧ x = "0" then some (.setIntermediate false)
+        else if h = "hinterm" ∧ x = "1" then some (.setIntermediate true)
+        else none
+      match op? with
+      | some op => ({ e with world := some (applyOp (cfgOf e) eps (extent e * 0.2) w op).1 }, "ok")
+      | none => (e, "bad-op")
+  | [h] =>
+    match e.world with
+    | none => (e, "bad-op")
+    | some w =>
+      let cfg := cfgOf e
+      if h = "hclear" then ({ e with world := some (applyOp cfg eps (extent e * 0.2) w .clear).1 }, "ok")
+      else if h = "hsetup" then ({ e with world := some (applyOp cfg eps (extent e * 0.2) w .setup).1 }, "ok")
+      else if h = "hclearsol" then ({ e with world := some (applyOp cfg eps (extent e * 0.2) w .clearSolutions).1 }, "ok")
+      else if h = "hsolve" then
+        match applyOp cfg eps (extent e * 0.2) w (.solve e.draws.toList) with
+        | (w', some r) =>
+          let a := match r.added with | some _ => "1" | none => "0"
+          ({ e with world := some w', hrep := some r, draws := #[] },
+            s!"status={r.status.name} bool={if r.status.toBool then 1 else 0} added={a} unused={r.unusedDraws} " ++
+            s!"nstart={r.pis.addedStartStates} lgm={match r.lastGoalMotion with | some i => toString i | none => "-1"} " ++
+            s!"range={floatBits w.params.maxDistance} interm={if w.params.addIntermediate then 1 else 0} " ++
+            s!"thr={floatBits w.params.threshold} ntree={r.tree.size}")
+        | _ => (e, "bad-op")
+      else if h = "htree" then
+        (e, joinSp (s!"tree n={w.planner.tree.size}" :: w.planner.tree.toList.map (fun nd =>
+          (match nd.parent with | some p => toString p | none => "-1") ++ ":" ++ showState nd.state)))
+      else if h = "hpath" then
+        match e.hrep with
+        | some r =>
+          match r.added with
+          | some (p, _, _) => (e, joinSp (s!"path n={p.length}" :: p.map showState))
+          | none => (e, "path none")
+        | none => (e, "bad-op")
+      else if h = "hpdef" then
+        let lt : Float → Float → Bool := fun a b => decide (a < b)
+        let better : List State → List State → Bool := fun _ _ => false
+        let sols := w.pd.solutions.map (fun s => (if s.approximate then "1" else "0") ++ ":" ++ floatBits s.difference)
+        (e, s!"pdef count={getSolutionCount w.pd} approx={if hasApproximateSolution lt better w.pd then 1 else 0} " ++
+          s!"diff={floatBits (getSolutionDifference lt better (-1.0) w.pd)} " ++
+          s!"sols={if sols.isEmpty then "-" else ",".intercalate sols}")
+      else (e, "bad-op")
   | _ => (e, "bad-op")
 
 end OmplModel.Driver.RRTDrv
